@@ -413,3 +413,27 @@ PROPS["C11"] = dict(
     required_labels=dict(both=["TestPiggybackPacking/more-than-255-parts", "TestPiggybackPacking/within-16-bytes-of-limit", "TestPiggybackPacking/crc"]),
     assumptions=PUPPET_ASSUMPTIONS,
 )
+
+PROPS["C17"] = dict(
+    title="Keyring integrity and zero-downtime key rotation",
+    pkg="./props/c17",
+    level="exploration",
+    journal=True,
+    technique="property-based testing (rapid): state-machine model of the keyring API; generated rotation interleavings on real clusters, also under the race detector",
+    rule=("(a) keyring API: NewKeyring(keys, primary) with valid (16/24/32 bytes), invalid (0/15/17/33), nil and duplicate keys, then 0-30 calls of AddKey / "
+          "UseKey / RemoveKey / GetKeys / GetPrimaryKey with keys from the same pool, starting from empty and non-empty rings, against an ordered-set model: after "
+          "every call the primary is element 0 and what GetPrimaryKey returns, no duplicates, all lengths valid, errors exactly for invalid length / UseKey of an "
+          "absent key / RemoveKey of the primary, the ring equals the model, no panic, and every slice previously returned by GetKeys still equals the deep copy "
+          "taken when it was returned. (b) 2-6 real encrypted nodes with probes, gossip, push/pull and user messages running: the three rotation phases are "
+          "performed node by node at independently generated instants; after every single step every ordered pair has primary(i) installed at j; nobody is "
+          "suspected, no leave event, health 0, every user message delivered exactly once, everybody ends with only the new key. (c) the same runs under "
+          "the race detector. non-trivial (a) = removal of a secondary key while an earlier GetKeys result is held, RemoveKey on an empty ring / of the "
+          "primary, UseKey of an absent key, duplicate AddKey; (b) = steps performed in an order that differs between phases or n>=3"),
+    tests=[
+        dict(name="model", run="^TestKeyringModel$", quick=dict(shards=4, checks=20000, timeout=300), thorough=dict(shards=8, checks=500000, timeout=1800)),
+        dict(name="rotation", run="^TestKeyRotation$", quick=dict(shards=8, checks=12, timeout=600), thorough=dict(shards=12, checks=500, timeout=3000)),
+        dict(name="rotation-race", run="^TestKeyRotation$", race=True, quick=dict(shards=4, checks=4, timeout=900), thorough=dict(shards=4, checks=150, timeout=3400)),
+    ],
+    required_labels=dict(both=["TestKeyringModel/remove-middle-while-held", "TestKeyringModel/remove-on-empty", "TestKeyRotation/different-step-order"]),
+    assumptions=CLUSTER_ASSUMPTIONS + ["data races are reported by the Go race detector only on the interleavings that actually occurred"],
+)
